@@ -19,11 +19,33 @@ class C14(CaseCheck):
             "sample is loaded through the real rule-set processor (conditional steps and empty `if` added at "
             "random) and three requests show the executed mechanisms (all succeed / every authenticator fails) "
             "and whether a failed match backtracks; non-trivial = a default rule exists or the rule is "
-            "malformed; distinct = by case content")
+            "malformed; distinct = by case content; every rule additionally goes to the Kubernetes validating "
+            "admission webhook built over the same rule factory (alone under the own authClassName, alone under "
+            "another one, and as second and third of three rules): Admission!Verdict")
     assumptions = [
         "mechanisms are scripted; instances of the default rule and of the rule carry different names, so the "
         "executed pipeline is observed, not private slices",
     ]
+
+    def design(self, work, verdict):
+        # the rule factory's design run, and the admission webhook's beside it
+        from concurrent.futures import ThreadPoolExecutor
+        from verif import tlc_expect_violation
+        with ThreadPoolExecutor(max_workers=5) as ex:
+            base = ex.submit(CaseCheck.design, self, work, verdict)
+            main = ex.submit(tlc_expect_ok, work, "AdmissionMC", "AdmissionMC.cfg", workers=2, timeout=600)
+            muts = {m: ex.submit(tlc_expect_violation, work, "AdmissionMC", "AdmissionMC_%s.cfg" % m, inv,
+                                 workers=1, timeout=600)
+                    for m, inv in (("first_error_only", "AnswerIsVerdict"), ("mismatch_refused", "ForeignNeverRefused"),
+                                   ("last_wins", "AdmittedIsLoadable"))}
+            base.result()
+            r = main.result()
+            refuted = {m: f.result().violated for m, f in muts.items()}
+        verdict.coverage["admission_design_run"] = {
+            "module": "AdmissionMC", "distinct_states": r.distinct, "generated": r.generated,
+            "invariants": ["AnswerIsVerdict", "AdmittedIsLoadable", "ForeignNeverRefused"], "liveness": ["Answers"],
+            "negative_controls_refuted": refuted,
+        }
 
     def generate(self, work, tier, seed):
         out = work.path("c14cases.ndjson")
